@@ -50,14 +50,15 @@ path = cache
 archive = archive
 transfers = transfers
 [inputs]
-files = {inputs_prefix}inputs/named_files
-csvpaths = {inputs_prefix}inputs/named_paths
+files = {inputs_prefix}inputs/named_files{inputs_suffix}
+csvpaths = {inputs_prefix}inputs/named_paths{inputs_suffix}
 on_unmatched_file_fingerprints = halt
 """
 
 
 class World:
-    def __init__(self, *, csvpath_policy=("collect", "print"), csvpaths_policy=("raise", "collect"), keep=False, log_level="error", inputs_prefix=""):
+    def __init__(self, *, csvpath_policy=("collect", "print"), csvpaths_policy=("raise", "collect"), keep=False, log_level="error", inputs_prefix="", inputs_suffix=""):
+        self.inputs_suffix = inputs_suffix  # "" | "/": a trailing separator on the inputs directories
         self.log_level = log_level
         self.inputs_prefix = inputs_prefix  # "" | "./" | ".//": the same directories, written less plainly in config.ini
         self.csvpath_policy = list(csvpath_policy)
@@ -101,6 +102,7 @@ class World:
                     log_file=log_file,
                     log_level=self.log_level,
                     inputs_prefix=self.inputs_prefix,
+                    inputs_suffix=self.inputs_suffix,
                 )
             )
 
